@@ -6,7 +6,7 @@ from . import c07
 
 ID = 'C19'
 LEAN_MODULE = 'KernProofs.C19'
-THEOREMS = []
+THEOREMS = ['KM.C19.pairsFrom_spec', 'KM.C19.C19_indexes', 'KM.C19.C19_empty', 'KM.C19.runRows_append', 'KM.C19.C19_pair_addresses_stages']
 FINGERPRINTS = ['generic.Generic', 'public', 'exporter.Exporter.export_string', 'importer.Importer', 'document.Document']
 RULE = ('generated **kern scores of C07\'s domain (quick 15 / thorough 120) cut at EVERY set of barline lines into 1..6 fragments (capped at 40 cut sets '
         'per score in the quick tier), with newline and empty separators: concat must give the same document as importing the joined text (default '
@@ -30,9 +30,12 @@ def explore(ctx, depth):
         cutsets = []
         for k in range(0, 6):
             cutsets += [list(c) for c in itertools.combinations(bars, k)]
-        if depth == 'quick' and len(cutsets) > 40:
-            cutsets = [[]] + rng.sample(cutsets[1:], 39)
+        if depth == 'quick' and len(cutsets) > 24:
+            cutsets = [[]] + rng.sample(cutsets[1:], 23)
         full_export = call(lambda: kp.dumps(case.doc))
+        import impl as IM
+        oracle = IM.oracle_for_text(case.text)
+        pending = []
         for cuts in cutsets:
             bounds = [0] + cuts + [len(lines)]
             frags = ['\n'.join(lines[a:b]) for a, b in zip(bounds, bounds[1:])]
@@ -43,7 +46,11 @@ def explore(ctx, depth):
                     d, idx = kp.concat(contents, separator=sep)
                     return d, [list(p) for p in idx]
                 r = call(run)
-                ctx.seen(inp, len(frags) >= 2)
+                if 'ok' in r:
+                    io = {'ok': {'pairs': r['ok'][1], 'starts': list(r['ok'][0].measure_start_tree_stages), 'export': call(lambda: kp.dumps(r['ok'][0]))}}
+                else:
+                    io = r
+                pending.append(({**inp, 'clause': 'tie: concat'}, io, {'op': 'doc.concat', 'frags': contents, 'sep': sep, 'oracle': oracle}, len(frags) >= 2))
                 ctx.count('fragments:%d' % len(frags))
                 if 'ok' not in r:
                     ctx.fail({**inp, 'clause': 'concat'}, 'concatenation of fragments that form a valid score raises', impl=r)
@@ -71,6 +78,12 @@ def explore(ctx, depth):
                         ctx.fail({**inp, 'pair': [a, b], 'clause': 'data lines of the fragment'}, 'exporting pair i does not reproduce the data lines of fragment i',
                                  impl=data, expected=want)
                         break
+
+
+        flush(ctx, pending)
+def flush(ctx, pending):
+    for (inp, io, _, nt), mr in zip(pending, ctx.driver.ask([p[2] for p in pending])):
+        ctx.check(inp, io, mr, None, nontrivial=nt, what='concat differs from the model')
 
 
 def data_lines_of_fragment(case, frag):
